@@ -1,6 +1,7 @@
 import re
 from typing import Callable, Dict, Iterable, Union
 
+import lxml.etree
 import lxml.html
 
 
@@ -44,7 +45,12 @@ def html(html_content: str) -> str:
     Returns:
         Text that is visible.
     """
-    html_tree = lxml.html.fromstring(html_content)
+    try:
+        html_tree = lxml.html.fromstring(html_content)
+    except lxml.etree.ParserError:
+        # lxml refuses a document without any element or text (empty, blank
+        # or comments only): nothing in it is visible
+        return ""
     text = html_tree.xpath(
         """//text()[normalize-space() and not(
             parent::style |
